@@ -28,7 +28,8 @@ def run(ck):
     if ck.tier == "thorough" and not ck.replay:
         race = ck.build_harness("stream", race=True)
         if race:
-            rpath, out = ck.harness("c19", out_name="c19_race.txt", binary=race)
+            # the race build runs the quick-size workload (the race detector slows the scenarios 10x)
+            rpath, out = ck.harness("c19", out_name="c19_race.txt", binary=race, extra=["-tier", "quick", "-seed", str(ck.seed + 1000)])
             if any("DATA RACE" in l for l in out):
                 ck.broken.append("race detector reported a data race in the concurrent scenarios")
             rlines = ck.model("stream", "c19", rpath)
